@@ -6,4 +6,11 @@ import sys
 for p in sys.argv[1:]:
     s = open(p).read()
     s = re.sub(r'<<<<<<< [^\n]*\n(.*?)=======\n(.*?)>>>>>>> [^\n]*\n', lambda m: m.group(1) + m.group(2), s, flags=re.S)
+    if p.endswith('.py'):
+        import ast
+        try:
+            ast.parse(s)
+        except SyntaxError as e:
+            print('NOT RESOLVED (would not parse):', p, e)
+            continue
     open(p, 'w').write(s)
